@@ -90,12 +90,12 @@ func genCrash(r *rand.Rand, tier string) Case {
 			}
 			v.Start()
 		case 4:
-			v.PumpEx(2*time.Second, torrent.ClsAlloc)
+			v.PumpEx(10*time.Second, torrent.ClsAlloc)
 			window = false
 		case 5:
-			v.PumpEx(2*time.Second, torrent.ClsVerify)
+			v.PumpEx(10*time.Second, torrent.ClsVerify)
 		case 6:
-			v.PumpEx(2*time.Second, torrent.ClsStopped)
+			v.PumpEx(10*time.Second, torrent.ClsStopped)
 		case 1:
 			switch x := r.Intn(10); {
 			case x < 7:
@@ -162,9 +162,9 @@ func genCrash(r *rand.Rand, tier string) Case {
 	for i := 0; i < 6; i++ {
 		st := lifeStatus(v2.Snapshot().Status)
 		if st == 4 {
-			v2.PumpEx(2*time.Second, torrent.ClsAlloc)
+			v2.PumpEx(10*time.Second, torrent.ClsAlloc)
 		} else if st == 5 {
-			v2.PumpEx(2*time.Second, torrent.ClsVerify)
+			v2.PumpEx(10*time.Second, torrent.ClsVerify)
 		} else {
 			break
 		}
